@@ -195,7 +195,7 @@ def doBuild (inp impl : Json) : R OpResult := do
     pure (pathsOk cfg st.rules ci.rules)
   let exp := expectedRules cfg st.rules
   return { model := model,
-           holds := [("C14.noPanic", noPanic), ("C14.paths", paths)],
+           holds := [("C14.noPanic", noPanic), ("C16.ingress_no_panic", noPanic), ("C14.paths", paths)],
            tags := ["op:build", s!"canary-rules:{exp.length}"] ++ ingressTags st
                    ++ (if st.rules.isEmpty then ["trivial"] else []) }
 
@@ -305,7 +305,7 @@ def doSeq (inp impl : Json) : R OpResult := do
       prevCanary := canary.isSome
   let nEnsure := (calls.filter fun c => match c with | .ensure _ => true | _ => false).length
   return { model := model,
-           holds := [("C14.noPanic", noPanic), ("C14.paths", paths), ("C14.fresh", fresh),
+           holds := [("C14.noPanic", noPanic), ("C16.ingress_no_panic", noPanic), ("C14.paths", paths), ("C14.fresh", fresh),
                      ("C14.frame", frame), ("C14.finalise", fin)],
            tags := ["op:seq", "class:" ++ classTag cfg.cls, s!"ensure-calls:{nEnsure}",
                     s!"fresh-checks:{min nFresh 6}"]
